@@ -75,6 +75,13 @@ def run(ctx) -> None:
     tg = idx.function(TAB, "TABresult.to_grid")
     cfg, du, pm = fctx(tg)
     S = Sem(idx, tg)
+    # whatever the formulation: k-point indices stored in the grid map refer to the stored k-point list, never to a mask-filtered copy of it
+    from ..taint import masked_index_escapes
+    from ..sem import reachable_helpers as _rh
+    for g_ in [tg] + _rh(idx, tg):
+        for n_, m_, why_ in masked_index_escapes(g_.node, fctx(g_)[1]):
+            r1.violation(g_, n_, f"{g_.qualname}: {why_}: as soon as one stored k-point is not on the target grid, grid slots receive the values of other "
+                         f"k-points", stmt="positions in a filtered list")
     gridp, orderp = (tg.params + [None, None, None])[1:3]
     r1.expect(gridp is not None and orderp is not None, "to_grid(self, grid, order)", tg, tg.node, "to_grid no longer has the parameters (grid, order)")
     GF = (f"{gridp}[None, :]", gridp, f"{gridp}[np.newaxis, :]", f"np.array({gridp})[None, :]")
